@@ -13,9 +13,10 @@ TECHNIQUE = 'the real jacobian_fd and the real candidate-step statements of leas
 EXPLANATION = ('python/mujoco/minimize.py is loaded from /repo. jacobian_fd runs unmodified on 1x1 object arrays of exact binary64 z3 terms (np.where/maximum/abs become ite terms), and the '
                'statements of least_squares from the computation of dlower/dupper and of the candidate "xnew = ..." up to the call residual(xnew) are extracted from the function\'s AST and '
                'executed on the same terms, with mju_boxQP replaced by its documented contract dlower <= dx <= dupper. Claim: every point at which the residual is evaluated lies in [lo, hi], '
-               'exactly in binary64, for every finite x in the box, every finite bounds and every dx the box-QP may return.')
-BOUNDS = {'quick': {'coordinates': 1, 'scaling D': 'powers of two in [1/4, 4]', '|values|': '<= 1e6, finite'}, 'thorough': {'scaling D': 'same', '|values|': '<= 1e12'}}
-OUTSIDE = 'non-increasing objective trace and global optimum for linear residuals (iterative numerics); n > 1 coordinates (the checked arithmetic is coordinate-wise); D not a power of two (not replayable through a residual with an exactly representable column norm).'
+               'exactly in binary64, for every finite x in the box, every finite bounds and every dx the box-QP may return.'
+               ' Line search: the candidate / reduction / armijo statements of least_squares (from its AST) run on real-valued symbolic columns; z3 shows that a candidate accepted by the Armijo test never increases the objective, for every scaling D > 0 and every descent step.')
+BOUNDS = {'quick': {'coordinates': 1, 'scaling D': 'powers of two in [1/4, 4]', '|values|': '<= 1e6, finite', 'armijo': 'n = 1, 2 coordinates, any D > 0, real arithmetic'}, 'thorough': {'scaling D': 'same', '|values|': '<= 1e12'}}
+OUTSIDE = 'non-increasing objective trace beyond one acceptance test (unit_armijo: real arithmetic, box-QP step assumed to be a descent direction) and global optimum for linear residuals (iterative numerics); n > 1 coordinates (the checked arithmetic is coordinate-wise); D not a power of two (not replayable through a residual with an exactly representable column norm).'
 ASSUMPTIONS = ['mju_boxQP returns dx with dlower <= dx <= dupper (documented post-condition)', 'bounds finite, lo < hi, and hi - lo >= 4*eps*max(1,|lo|,|hi|) for the finite-difference claim (box wider than the step)',
                'binary64 round-to-nearest-even, no FMA']
 BUDGET = {'quick': 600, 'thorough': 3000}
@@ -99,6 +100,65 @@ def unit_candidate(tier, D):
     return ck
 
 
+def armijo_statements():
+    """statements of the Armijo loop of least_squares from the candidate (after the box-QP loop) to the assignment of `armijo`, without the residual call and timing; and the constant armijo_c1"""
+    src = open(os.path.join(build.REPO, 'python/mujoco/minimize.py')).read()
+    fn = [n for n in ast.parse(src).body if isinstance(n, ast.FunctionDef) and n.name == 'least_squares'][0]
+    out = {'stmts': None, 'c1': None}
+    for node in ast.walk(fn):
+        if isinstance(node, ast.Assign) and any(isinstance(t, ast.Name) and t.id == 'armijo_c1' for t in node.targets):
+            try: out['c1'] = ast.literal_eval(node.value)
+            except Exception: pass
+        if isinstance(node, ast.While):
+            body = node.body
+            ia = [i for i, s_ in enumerate(body) if isinstance(s_, ast.Assign) and any(isinstance(t, ast.Name) and t.id == 'armijo' for t in s_.targets)]
+            ir_ = [i for i, s_ in enumerate(body) if isinstance(s_, ast.Assign) and any(isinstance(t, ast.Name) and t.id == 'rnew' for t in s_.targets)]
+            if ia and ir_:
+                last = max([i for i, s_ in enumerate(body[:ir_[0]]) if isinstance(s_, (ast.While, ast.For)) or (isinstance(s_, ast.If) and any(isinstance(x, ast.Break) for x in ast.walk(s_)))] + [-1])
+                out['stmts'] = [s_ for k, s_ in enumerate(body[last + 1:ia[0] + 1]) if 'time.time' not in ast.unparse(s_) and 'residual(xnew)' not in ast.unparse(s_) and 'n_res' not in ast.unparse(s_)]
+    return out
+
+
+def unit_armijo(tier, n):
+    """acceptance test of the line search: with the box-QP step a descent direction in the scaled coordinates in which grad is computed (its contract: never worse than dx = 0 for a positive
+    semidefinite model), a candidate that passes `armijo >= 0` has an objective no larger than the current one - for every scaling D > 0, gradient, step and objective values (real arithmetic)"""
+    ck = Checker('armijo_n%d' % n, tier, timeout_s=120, semantics='real')
+    st = armijo_statements()
+    ck.selfcheck('Armijo statements located in least_squares', bool(st['stmts']) and st['c1'] is not None, [ast.unparse(s_) for s_ in (st['stmts'] or [])] + [st['c1']])
+    if not st['stmts'] or st['c1'] is None: return ck
+    col = lambda name: pysym.sym_array(name, (n, 1))
+    x, D, dx, grad = col('x'), col('D'), col('dx'), col('grad')
+    y = pysym.S(z3.Real('y')); ynew = pysym.S(z3.Real('ynew'))
+    class Norm:
+        def value(self, r): return ynew
+    env = {'np': np, 'bounds': None, 'x': x, 'D': D, 'dx': dx, 'grad': grad, 'y': y, 'norm': Norm(), 'rnew': None, 'armijo_c1': st['c1'], 'n': n}
+    for s_ in st['stmts']: exec(compile(ast.Module([s_], []), 'minimize.py', 'exec'), env)
+    arm = env['armijo']; arm = arm.t if isinstance(arm, pysym.S) else pysym.R(arm)
+    T = lambda a: [c.t for c in a.ravel()]
+    gdx = sum([g * d for g, d in zip(T(grad), T(dx))], z3.RealVal(0))
+    pre = [d > 0 for d in T(D)] + [gdx <= 0]
+    ck.functions |= {'least_squares (Armijo statements: %s)' % '; '.join(ast.unparse(s_).strip().replace('\n', ' ') for s_ in st['stmts'])}
+    names = [('D', D), ('dx', dx), ('grad', grad), ('x', x)]
+    def dec(mdl):
+        from vf.world import evalnum
+        out = {k: [str(evalnum(mdl, t)) for t in T(a)] for k, a in names}; out.update(y=str(evalnum(mdl, y.t)), ynew=str(evalnum(mdl, ynew.t))); return out
+    def replay(model, witness):
+        """the same statements of the real least_squares, executed by the real interpreter on the concrete floats of the counterexample"""
+        from vf.world import evalnum
+        f = lambda a: np.array([[float(evalnum(model, t))] for t in T(a)])
+        yv, ynv = float(evalnum(model, y.t)), float(evalnum(model, ynew.t))
+        class N2:
+            def value(self, r): return ynv
+        e2 = {'np': np, 'bounds': None, 'x': f(x), 'D': f(D), 'dx': f(dx), 'grad': f(grad), 'y': yv, 'norm': N2(), 'rnew': None, 'armijo_c1': st['c1'], 'n': n}
+        for s_ in st['stmts']: exec(compile(ast.Module([s_], []), 'minimize.py', 'exec'), e2)
+        accepted = not (e2['armijo'] < 0); worse = ynv > yv
+        return bool(accepted and worse and float((e2['grad'].T @ e2['dx']).item()) <= 0), {'armijo': repr(e2['armijo']), 'y': yv, 'ynew': ynv, 'grad.dx (scaled coordinates)': float((e2['grad'].T @ e2['dx']).item()), 'accepted': accepted}
+    ck.prove('a candidate accepted by the Armijo test (armijo >= 0) does not increase the objective, for every positive scaling D and every descent step', pre + [arm >= 0], ynew.t <= y.t,
+             site='least_squares:armijo-accepts-increase', decode=dec, replay=replay)
+    ck.reach('accepted descent step', pre + [arm >= 0])
+    return ck
+
+
 def unit_fd(tier, case):
     ck = Checker('jacobian_fd_%s' % case, tier, timeout_s=400, semantics='fp64')
     m = load_minimize('vf_minimize_sym')
@@ -137,4 +197,5 @@ def unit_fd(tier, case):
 def units(tier):
     u = [('jacobian_fd_%s' % c, 'unit_fd', {'case': c}) for c in ('up_small', 'up_big', 'down_small', 'down_big')]
     for D in ([1.0, 0.5, 2.0] if tier == 'quick' else [1.0, 0.5, 2.0, 0.25, 4.0]): u.append(('candidate_D%g' % D, 'unit_candidate', {'D': D}))
+    for n in ([1, 2] if tier == 'quick' else [1, 2, 3]): u.append(('armijo_n%d' % n, 'unit_armijo', {'n': n}))
     return u
